@@ -613,6 +613,25 @@ def wstep (w : World) : WOp → World
 
 def wrun (ops : List WOp) : World := ops.foldl wstep World.init
 
+/-- whom `prune id` jails in world state `w`: the victims of the stored message, nobody when the
+message is not in the queue (`wstep_prune_jailed`: the jailed set grows by exactly this list) -/
+def pruneVictims (w : World) (id : Nat) : List Nat :=
+  match getItem w.q.queue id with
+  | none => []
+  | some it => victims w.q it
+
+/-- the victims of every `prune` op of a history run from `w`, in the order of the prunes.  This is what
+`Driver.Queue.stepPrune` prints for a `prune hist …` line: the harness drives a whole message life
+(puts, snapshots, reports in any order, evidence, estimates, elections, removals, prunes) on the real
+keepers and compares whom each prune jailed. -/
+def pruneLog (w : World) : List WOp → List (List Nat)
+  | [] => []
+  | .prune id :: rest => pruneVictims w id :: pruneLog (wstep w (.prune id)) rest
+  | .bridge op :: rest => pruneLog (wstep w (.bridge op)) rest
+  | .evidence c key :: rest => pruneLog (wstep w (.evidence c key)) rest
+  | .register v key :: rest => pruneLog (wstep w (.register v key)) rest
+  | .queue op :: rest => pruneLog (wstep w (.queue op)) rest
+
 /-- projection of one world step to the part-A op language: queue ops are invisible, a prune is an
 external `jail` of its victims -/
 def trace1 (w : World) : WOp → List Op13
@@ -1680,6 +1699,67 @@ theorem world_supplier_never_jailed (pre mid : List WOp) (id v h : Nat)
     obtain ⟨hm, hid⟩ := getItem_some hg
     exact ⟨victims w2.q it, by rw [wstep_prune_some hg], victims_spare_suppliers _ it v (hs2.2 it hm hid)⟩
 
+/-- **wstep_prune_jailed.** A prune adds exactly `pruneVictims` to the jailed set (nobody when the
+message is not in the queue). -/
+theorem wstep_prune_jailed (w : World) (id : Nat) :
+    (wstep w (.prune id)).br.jailed = pruneVictims w id ++ w.br.jailed := by
+  unfold pruneVictims
+  cases hg : getItem w.q.queue id with
+  | none => rw [wstep_prune_none hg]; rfl
+  | some it => rw [wstep_prune_some hg]
+
+/-- **pruneLog_append.** The prune log of a history is the log of a prefix followed by the log of the
+rest, run from the state the prefix leads to. -/
+theorem pruneLog_append (a b : List WOp) :
+    ∀ w, pruneLog w (a ++ b) = pruneLog w a ++ pruneLog (a.foldl wstep w) b := by
+  induction a with
+  | nil => intro w; rfl
+  | cons op rest ih =>
+    intro w
+    cases op <;> simp only [List.cons_append, pruneLog, List.foldl_cons, ih]
+
+/-- **pruneLog_snoc_prune.** What the driver prints last for a history that ends in `prune id`: the
+victims of that prune in the world state the history leads to. -/
+theorem pruneLog_snoc_prune (ops : List WOp) (id : Nat) :
+    pruneLog World.init (ops ++ [.prune id]) = pruneLog World.init ops ++ [pruneVictims (wrun ops) id] := by
+  rw [pruneLog_append]; rfl
+
+/-- **evidence_on_record_for_life** (mechanism of the third clause).  Once `addEvidence id v h` was
+accepted (the message was in the queue), `v` stays among the suppliers on record of every stored copy of
+message `id` through ANY continuation of the world history: a delivery report that follows an error
+report (`setPublic` after `setError`), further reports, gas estimates, the end-block election (which
+clears the signatures, never the evidence), re-submissions by `v` or by others, snapshot changes, other
+messages, bridge traffic.  Nothing but the removal of the message takes the record away. -/
+theorem evidence_on_record_for_life (pre mid : List WOp) (id v h : Nat)
+    (hq : (getItem (wrun pre).q.queue id).isSome) :
+    ∀ it ∈ (wrun (pre ++ [.queue (.addEvidence id v h)] ++ mid)).q.queue, it.id = id →
+      v ∈ it.evidence.map (·.1) := by
+  have hi0 := (winv_wrun pre).1
+  have hs1 : SupInv id v (wstep (wrun pre) (.queue (.addEvidence id v h))).q := addEv_supInv _ id v h hi0 hq
+  have hi1 := (wstep_shape (wrun pre) (.queue (.addEvidence id v h)) hi0).qinv hi0
+  have hrun : wrun (pre ++ [.queue (.addEvidence id v h)] ++ mid) =
+      mid.foldl wstep (wstep (wrun pre) (.queue (.addEvidence id v h))) := by
+    rw [wrun_append, wrun_snoc]
+  obtain ⟨_, hs2⟩ := supInv_foldl mid id v _ hi1 hs1
+  rw [← hrun] at hs2
+  exact hs2.2
+
+/-- **supplier_not_a_victim** (third clause, as the driver's `prune hist` op decides it).  Validator `v`
+supplies evidence for message `id` while it is in the queue; after ANY further message life `mid`, `v`
+is not among the victims of a prune of `id` — the last entry of the prune log of
+`pre ++ [addEvidence id v h] ++ mid ++ [prune id]` (`pruneLog_snoc_prune`). -/
+theorem supplier_not_a_victim (pre mid : List WOp) (id v h : Nat)
+    (hq : (getItem (wrun pre).q.queue id).isSome) :
+    v ∉ pruneVictims (wrun (pre ++ [.queue (.addEvidence id v h)] ++ mid)) id := by
+  have hrec := evidence_on_record_for_life pre mid id v h hq
+  generalize wrun (pre ++ [.queue (.addEvidence id v h)] ++ mid) = w2 at hrec ⊢
+  unfold pruneVictims
+  cases hg : getItem w2.q.queue id with
+  | none => simp
+  | some it =>
+    obtain ⟨hm, hid⟩ := getItem_some hg
+    exact victims_spare_suppliers _ it v (hrec it hm hid)
+
 /-- **world_jailed_cannot_register.** One jailed set: a validator jailed by a prune (or by evidence) can
 no longer register a remote key — the world does not change. -/
 theorem world_jailed_cannot_register (w : World) (v key : Nat) (h : v ∈ w.br.jailed) :
@@ -1739,5 +1819,28 @@ example : (wrun demoW).br.jailed = [4, 5] ∧
     (wrun (demoW ++ [.register 4 45, .register 3 35])).br.keys = [(3, 35), (4, 44)] ∧
     -- evidence against the key of the prune-jailed validator 4 changes nothing (already jailed)
     (wrun (demoW ++ [.evidence (1, 1, 21000, 1) 44])).br.jailed = [4, 5] := by decide
+
+def snap5x5 : Snap := { vals := [⟨1, 5, []⟩, ⟨2, 5, []⟩, ⟨3, 5, []⟩, ⟨4, 5, []⟩, ⟨5, 5, []⟩], total := 25 }
+
+/-- (v) a whole message life: the relayer reports an ERROR, validators 1 and 2 attest to it, a delivery
+report follows after all (`Queue.SetPublicAccessData` only refuses when one exists already), estimates
+arrive and the end-block elects one, validator 3 attests to the delivery; the message is pruned, then
+pruned again; a bystander message without report is pruned in between -/
+def demoLife : List WOp :=
+  [ .queue (.setEnv { snapshot := some snap5x5 }),
+    .queue (.put .other 7 1 1 4 true), .queue (.put .slc 8 1 2 4 false),
+    .queue (.setError 1), .queue (.addEvidence 1 1 100), .queue (.addEvidence 1 2 100),
+    .queue (.setPublic 1),
+    .queue (.addEstimate 1 3 21000), .queue (.addEstimate 1 4 21000), .queue (.addEstimate 1 5 21000), .queue (.addEstimate 1 1 21000),
+    .queue .endBlock,
+    .queue (.addEvidence 1 3 200), .queue (.addEvidence 2 4 300),
+    .prune 2, .prune 1, .prune 1 ]
+
+-- the attesters of the error report (1, 2) and of the delivery report (3) are spared, the two
+-- validators that never attested are jailed; the bystander and the second prune jail nobody
+example : pruneLog World.init demoLife = [[], [4, 5], []] ∧ (wrun demoLife).br.jailed = [4, 5] := by decide
+example : (wrun (demoLife.take 13)).q.queue.map (fun it => (it.id, it.evidence)) = [(1, [(1, 100), (2, 100), (3, 200)]), (2, [])] ∧
+    (wrun (demoLife.take 13)).q.queue.map (fun it => (it.pub, it.err)) = [(true, true), (false, false)] ∧
+    (wrun (demoLife.take 13)).q.queue.map (·.elected) = [21000, 0] := by decide
 
 end Paloma.C13
